@@ -200,6 +200,42 @@ def r02_3(ctx):
 HEXCALLS = ("hex_to_u32_nocheck", "parse_escaped_utf8", "handle_unicode_codepoint_mut")
 
 
+def _hex_judged(fn, t):
+    """is the value produced by a hex-decoding call judged afterwards?  hex_to_u32_nocheck and
+    parse_escaped_utf8 return a number whose high bits are set when a digit was not hexadecimal: it has to
+    reach a comparison (with 0xFFFF / a range) or codepoint_to_utf8 (which rejects it); the in-place helper
+    returns a bool that has to be tested"""
+    d = t["dest"][0]
+    start = {d}
+    # through `?`
+    for b, tt in fn.calls():
+        if callee_is(tt, "branch") and op_local(tt["args"][0]) == d:
+            br = tt["dest"][0]
+            for bb, i, ss in fn.assigns():
+                p = op_place(ss["rv"].get("op", {"k": ""})) if ss["rv"]["k"] in ("use", "cast") else None
+                if p and p[0] == br and any(isinstance(e, list) and e[0] == "as" and e[1] == "Continue" for e in p[1]) and not ss["lhs"][1]:
+                    start.add(ss["lhs"][0])
+    der = forward_derived(fn, start)
+    for b, i, ss in fn.assigns():
+        rv = ss["rv"]
+        if rv["k"] == "binop" and rv["op"] in ("Gt", "Ge", "Lt", "Le", "Eq", "Ne") and (op_local(rv["a"]) in der or op_local(rv["b"]) in der):
+            return True
+    for b, tt in fn.calls():
+        if callee_is(tt, "codepoint_to_utf8", "contains") and any(op_local(a) in der or (op_local(a) is not None and fn.src(op_local(a)) == ("refof", x) for x in der) for a in tt["args"]):
+            return True
+        if callee_is(tt, "codepoint_to_utf8") and any(op_local(a) in der for a in tt["args"]):
+            return True
+    for b, tt in fn.terms():
+        if tt["k"] == "switch" and op_local(tt["discr"]) in der and fn.locals[d]["ty"] == "bool":
+            return True
+    # a bool result negated then tested
+    if fn.locals[d]["ty"] == "bool":
+        e = bool_switch_edges(fn, d)
+        if e:
+            return True
+    return False
+
+
 def r02_5(ctx):
     prog = ctx.prog()
     users = []
@@ -238,9 +274,7 @@ def r02_5(ctx):
             used = False
             for hb in hexb:
                 t = fn.blocks[hb]["term"]
-                d = t["dest"][0]
-                fate_uses = fn.uses_of(d)
-                used = used or any(True for ub, ui, us in fate_uses if not (ui == "term" and us["k"] == "drop"))
+                used = used or _hex_judged(fn, t)
             ok = bool(hexb) and not leak and used
             ctx.ob("R02.5", f"{short(fn.id)}:u-branch#{k + 1}", ok, fn.loc(),
                    "the \\u branch reaches the hex-digit decoder on every path before continuing, and its verdict is used" if ok else
@@ -324,6 +358,15 @@ def r02_8(ctx):
             reach = fn.reachable_from(start, avoid=verd | lossy_edges)
             leak = reach & goals
             key = f"{short(fn.id)}:{t['callee'].rsplit('::', 1)[-1]}"
+            if callee_is(t, "parse_with_padding"):
+                # check_invalid_utf8 only reports an invalid sequence that lies before the reader index: the
+                # count returned by the in-place parse must have been consumed (eat) before the verdict is asked
+                eats = [bb for bb, tt in fn.calls() if callee_is(tt, "Reader::eat")]
+                vb = [bb for bb in verd if bb in fn.reachable_from(start)]
+                ordered = bool(vb) and all(any(fn.dominates(e, v) and e in fn.reachable_from(start) for e in eats) for v in vb)
+                ctx.ob("R02.8", key + ":consumed-before-verdict", ordered, fn.loc(t["ln"]),
+                       "the parsed bytes are consumed (eat) before check_invalid_utf8, which only looks behind the reader index" if ordered else
+                       "check_invalid_utf8 is asked before the parsed bytes are consumed: it only looks behind the reader index, so it can never report the invalid sequence")
             ctx.ob("R02.8", key, not leak, fn.loc(t["ln"]),
                    "every path from the skip / in-place parse to the hand-over of its bytes passes the reader's UTF-8 verdict (lossy mode excepted)" if not leak else
                    "bytes skipped or parsed in place are handed out as str on a path that never checks the reader's UTF-8 verdict")
@@ -392,6 +435,200 @@ def r02_10(ctx):
                f"after a '.' is consumed a path reaches another test for '.' without setting `{fn.locals[flag].get('name')}`: a second fraction (1.5.5) is skipped as one number")
 
 
+VALUE_START = {45, 34, 91, 123, 116, 102, 110} | set(range(48, 58))
+
+
+def _byte_alias(fn, byte_places):
+    """predicate: is this operand (a copy of) the dispatched byte?"""
+    def is_byte(o):
+        p = op_place(o)
+        if p is None:
+            return False
+        if tuple_place(p) in byte_places:
+            return True
+        if not p[1]:
+            sc = fn.src(p[0])
+            if sc[0] == "place" and tuple_place(sc[1]) in byte_places:
+                return True
+            if sc[0] == "param" and ("param", sc[1]) in byte_places:
+                return True
+        return False
+    return is_byte
+
+
+def tuple_place(p):
+    return (p[0], json_key(p[1]))
+
+
+def json_key(x):
+    import json as _j
+    return _j.dumps(x)
+
+
+def arm_of(fn, start, is_byte, v):
+    """follow the decision DAG on the dispatched byte for the concrete value v; returns the first block that
+    does something else than deciding on the byte"""
+    env = {}
+    cur = start
+    for step in range(64):
+        blk = fn.blocks[cur]
+        pure = True
+        for s in blk["stmts"]:
+            if s["k"] != "assign":
+                continue
+            rv = s["rv"]
+            lhs = s["lhs"]
+            if rv["k"] == "binop" and rv["op"] in ("Le", "Lt", "Ge", "Gt", "Eq", "Ne") and not lhs[1]:
+                a, b = rv["a"], rv["b"]
+                av = v if is_byte(a) else op_int(a)
+                bv = v if is_byte(b) else op_int(b)
+                if av is not None and bv is not None and (is_byte(a) or is_byte(b)):
+                    env[lhs[0]] = {"Le": av <= bv, "Lt": av < bv, "Ge": av >= bv, "Gt": av > bv, "Eq": av == bv, "Ne": av != bv}[rv["op"]]
+                    continue
+            if rv["k"] == "unop" and rv["op"] == "Not" and op_local(rv["a"]) in env and not lhs[1]:
+                env[lhs[0]] = not env[op_local(rv["a"])]
+                continue
+            if rv["k"] == "use" and (is_byte(rv["op"]) or op_local(rv["op"]) in env) and not lhs[1]:
+                if op_local(rv["op"]) in env:
+                    env[lhs[0]] = env[op_local(rv["op"])]
+                continue
+            pure = False
+        t = blk["term"]
+        if not pure and step > 0:
+            return cur
+        if t["k"] == "goto":
+            cur = t["t"]
+            continue
+        if t["k"] == "switch":
+            d = t["discr"]
+            if is_byte(d):
+                tg = None
+                for val, x in t["targets"]:
+                    if int(val) == v:
+                        tg = x
+                cur = tg if tg is not None else t["otherwise"]
+                continue
+            l = op_local(d)
+            if l in env:
+                want = 1 if env[l] else 0
+                tg = None
+                for val, x in t["targets"]:
+                    if int(val) == want:
+                        tg = x
+                cur = tg if tg is not None else t["otherwise"]
+                continue
+        return cur
+    return cur
+
+
+def r02_4(ctx):
+    """one value-start alphabet: every value dispatcher (a switch on a byte with arms for '-', '"', '[' and
+    '{'), evaluated for all 256 byte values, sends exactly '-' and the ten digits to its number arm, exactly
+    one byte each to its string / object / array arms, and every byte outside the JSON value-start alphabet
+    to one catch-all arm"""
+    prog = ctx.prog()
+    n = 0
+    for f in prog.fns.values():
+        if f.crate != "sonic_rs":
+            continue
+        start = None
+        bplace = None
+        for b, t in f.terms():
+            if t["k"] == "switch" and t.get("dty") == "u8" and {34, 45, 91, 123} <= {int(v) for v, _ in t["targets"]}:
+                start, bplace = b, op_place(t["discr"])
+                break
+        if start is None or bplace is None:
+            continue
+        n += 1
+        places = {tuple_place(bplace)}
+        if not bplace[1]:
+            sc = f.src(bplace[0])
+            if sc[0] == "param":
+                places.add(("param", sc[1]))
+            if sc[0] == "place":
+                places.add(tuple_place(sc[1]))
+        is_byte = _byte_alias(f, places)
+        arms = {v: arm_of(f, start, is_byte, v) for v in range(256)}
+        num = arms[45]
+        catch = arms[0]
+        key = short(f.id)
+        numset = {v for v, a in arms.items() if a == num}
+        ctx.ob("R02.4", f"{key}:number-arm", numset == {45} | set(range(48, 58)) and num != catch, f.loc(), f"number arm is taken for {sorted(chr(v) for v in numset)}" if len(numset) < 20 else f"number arm is taken for {len(numset)} byte values (expected '-' and the ten digits)")
+        for ch in (34, 91, 123):
+            only = {v for v, a in arms.items() if a == arms[ch]}
+            ctx.ob("R02.4", f"{key}:arm:{chr(ch)}", only == {ch} and arms[ch] != catch, f.loc(), f"arm of {chr(ch)!r} is taken for {sorted(chr(v) for v in only)[:6]}")
+        outside = {v for v in range(256) if v not in VALUE_START}
+        stray = sorted(v for v in outside if arms[v] != catch)
+        ctx.ob("R02.4", f"{key}:outside-alphabet", not stray, f.loc(), "all 245 bytes outside the value-start alphabet go to the one catch-all arm" if not stray else f"bytes {[hex(v) for v in stray[:8]]} outside the JSON value-start alphabet are accepted by their own arm")
+        # what the catch-all does: error / panic / delegation of the literal bytes
+        cb = f.blocks[catch]
+        t = cb["term"]
+        errs = [s for s in cb["stmts"] if s["k"] == "assign" and s["rv"]["k"] == "agg" and s["rv"].get("adt", "").endswith("ErrorCode")]
+        lit_own = all(arms[v] != catch for v in (116, 102, 110))
+        kind = None
+        if errs or (t["k"] in ("call",) and callee_is(t, "error", "panic_fmt", "panic", "unreachable_display", "from_str_nonconst", "new_const")) or t["k"] == "unreachable":
+            kind = "error"
+        elif t["k"] in ("call", "tailcall") and t.get("callee") in prog.fns:
+            g = prog.fns[t["callee"]]
+            sw = [tt for bb, tt in g.terms() if tt["k"] == "switch" and tt.get("dty") == "u8" and {116, 102, 110} <= {int(v) for v, _ in tt["targets"]}]
+            byte_arg = any(is_byte(a) for a in t["args"])
+            if sw and byte_arg:
+                kind = f"delegates the byte to {short(g.id)}, which dispatches t/f/n and rejects the rest"
+        okc = kind is not None and (lit_own or (kind or "").startswith("delegates") or f.name in ("load_owned_lazyvalue", "get_type"))
+        ctx.ob("R02.4", f"{key}:catch-all", okc, f.loc(t.get("ln")), f"catch-all arm: {kind}; literal bytes t/f/n " + ("have their own arms" if lit_own else "go through the catch-all") if okc else "the catch-all arm of the value dispatcher neither rejects nor delegates to a literal dispatcher")
+    ctx.floor("R02.4", "value dispatchers (switch with arms for '-', '\"', '[' and '{')", n, 9)
+
+
+RAW_PEEK = ("Reader::peek", "Reader::peek_n", "Reader::at")
+WS_SRC = ("skip_space", "skip_space_peek")
+
+
+def r02_7(ctx):
+    """separator handling after whitespace: a test for the closing bracket of a container made on a byte that
+    was peeked raw (without skipping whitespace) must be repeated on a byte obtained through skip_space before
+    the first element is parsed; otherwise `[ ]` is not recognised as empty (sibling parsers all go through
+    skip_space)"""
+    prog = ctx.prog()
+    n = 0
+    for f in prog.fns.values():
+        if f.crate != "sonic_rs" or f.self_adt != "sonic_rs::parser::Parser":
+            continue
+        # tests on 93 / 125 with the origin of the tested byte
+        tests = []
+        for b, t in f.terms():
+            if t["k"] == "switch" and t.get("dty") == "u8":
+                vals = {int(v): tg for v, tg in t["targets"]}
+                for c in (93, 125):
+                    if c in vals:
+                        p = op_place(t["discr"])
+                        src_call = None
+                        if p is not None:
+                            d = f.single_def(p[0])
+                            if d and d[0] == "call":
+                                src_call = d[2]
+                            elif d and d[0] == "stmt":
+                                sl, leaves = backward_slice(f, [p[0]])
+                                cs = [lf[2] for lf in leaves if lf[0] == "call"]
+                                src_call = cs[0] if len(cs) == 1 else None
+                        tests.append((b, c, vals[c], t["otherwise"], src_call, t))
+        if not tests:
+            continue
+        elem_calls = {b for b, t in f.calls() if t["callee"].rsplit("::", 1)[-1] in ("skip_one", "skip_one_unchecked", "parse_value", "parse_value2", "parse_array", "parse_array2", "parse_object", "parse_object2", "parse_number_inplace", "parse_number_visit", "parse_string_inplace", "parse_string_owned", "skip_string", "parse_literal_visit", "get_many_rec", "get_by_schema_rec")}
+        for b, c, hit, miss, sc, t in tests:
+            if sc is None or not callee_is(sc, *RAW_PEEK):
+                if sc is not None and callee_is(sc, *WS_SRC):
+                    n += 1
+                continue
+            n += 1
+            # from the miss edge, before any element parse, the same constant must be tested on a whitespace-skipped byte
+            region = f.reachable_from(miss, avoid=elem_calls)
+            again = [x for x in tests if x[0] in region and x[1] == c and x[4] is not None and callee_is(x[4], *WS_SRC)]
+            ctx.ob("R02.7", f"{short(f.id)}:{chr(c)}-after-space", bool(again), f.loc(t["ln"]),
+                   f"a raw-peek fast path for {chr(c)!r} is followed by the whitespace-skipping test before the first element" if again else
+                   f"{chr(c)!r} is only tested on a raw peeked byte before the first element: an empty container written with whitespace inside (`[ ]`) is not recognised")
+    ctx.ob("R02.7", "closing-bracket-tests", n >= 10, "", f"{n} closing-bracket tests on whitespace-skipped or raw-peeked bytes analysed (floor 10)", nontrivial=False)
+
+
 def r02_9(ctx):
     c07.r07_4(ctx)
     # relabel
@@ -400,4 +637,11 @@ def r02_9(ctx):
             o["rule"] = "R02.9"
 
 
-RULES = [("R02.1", r02_1), ("R02.2", r02_2), ("R02.3", r02_3), ("R02.5", r02_5), ("R02.6", r02_6), ("R02.8", r02_8), ("R02.9", r02_9), ("R02.10", r02_10)]
+def r02_s(ctx):
+    """clauses of the \\u / surrogate decoding that the accept-exactly property needs (shared with C09)"""
+    from . import c09
+    for fn in (c09.r09_3, c09.r09_6, c09.r09_8):
+        ctx.include(fn, 'R02.S')
+
+
+RULES = [("R02.1", r02_1), ("R02.2", r02_2), ("R02.3", r02_3), ("R02.4", r02_4), ("R02.5", r02_5), ("R02.6", r02_6), ("R02.7", r02_7), ("R02.8", r02_8), ("R02.9", r02_9), ("R02.10", r02_10), ("R02.S", r02_s)]
